@@ -426,7 +426,8 @@ func c10Ladder(c *Ctx, cp *c10Copy) {
 				if enabled {
 					v = 1
 				}
-			} else if x, ok := wEval(cd.T, map[string]int64{param: size}); ok {
+			} else if x, ok := wEval(cd.T, map[string]int64{param: size, "$__heap_lfixed_cap": map[bool]int64{true: 64, false: 0}[enabled]}); ok {
+				// (the mode is the list capacity: 0 disables the fixed lists; the predicate may have been expanded in place)
 				v = x
 			} else {
 				return false, false
